@@ -318,4 +318,36 @@ theorem closure_valid' (strands : Nat) (w : List Int) (l : Link) (h : closure st
         rw [allEdges_fromPD4, flatPD_map]
         exact closure_final strands st hI hfl
 
+/-- a list in which every entry occurs exactly twice has half as many distinct entries as entries -/
+theorem twice_labels (n : Nat) : ∀ (L : List Nat), L.length = n → (∀ e ∈ L, L.count e = 2) →
+    2 * L.eraseDups.length = L.length := by
+  induction n using Nat.strongRecOn with
+  | ind n ih =>
+    intro L hn h
+    cases L with
+    | nil => rfl
+    | cons a r =>
+      rw [List.eraseDups_cons, List.length_cons, List.length_cons]
+      show 2 * ((r.filter (fun x => x != a)).eraseDups.length + 1) = r.length + 1
+      have hcount : (a :: r).count a = 2 := h a (by simp)
+      have hlen : (a :: r).length = (a :: r).countP (fun x => x != a) + (a :: r).countP (fun x => ¬ (x != a)) :=
+        List.length_eq_countP_add_countP _
+      have h1 : (a :: r).countP (fun x => x != a) = (r.filter (fun x => x != a)).length := by
+        rw [List.countP_cons]; simp [List.countP_eq_length_filter]
+      have h2 : (a :: r).countP (fun x => decide ¬ ((x != a) = true)) = (a :: r).count a := by
+        rw [List.count_eq_countP]
+        congr 1; funext x; by_cases hx : x = a <;> simp [hx]
+      have hfl : (r.filter (fun x => x != a)).length + 2 = r.length + 1 := by
+        simp only [List.length_cons] at hlen; omega
+      have hvalid : ∀ e ∈ r.filter (fun x => x != a), (r.filter (fun x => x != a)).count e = 2 := by
+        intro e he
+        rw [List.mem_filter] at he
+        have hne : e ≠ a := by simpa using he.2
+        rw [List.count_filter (by simpa using hne)]
+        have := h e (List.mem_cons_of_mem _ he.1)
+        rw [List.count_cons] at this
+        simpa [Ne.symm hne] using this
+      have := ih (r.filter (fun x => x != a)).length (by simp only [List.length_cons] at hn; omega) _ rfl hvalid
+      omega
+
 end Yuiv.C18
